@@ -1,6 +1,6 @@
 """Run the registered quick checks against every seeded change under /verif/seeded/<id>/ (patch applied to /repo,
 checks run, patch reverted straight afterwards). Usage: seedtest.py [id ...]  — prints one line per (seed, property)."""
-import json, subprocess, sys, time
+import json, re, subprocess, sys, time
 from pathlib import Path
 
 V = Path(__file__).resolve().parent.parent
@@ -27,7 +27,16 @@ def main():
                 t0 = time.time()
                 r = sh(f"./check {p} --tier quick", cwd=V, timeout=1800)
                 line = next((l for l in r.stdout.splitlines() if l.startswith("VIOLATION")), r.stdout.strip().splitlines()[-1] if r.stdout.strip() else r.stderr.strip()[-200:])
-                print(f"{i}: check {p} rc={r.returncode} {time.time() - t0:.0f}s  {line[:200]}")
+                sig = ""
+                m = re.search(r"replay=(\S+)", line)
+                if m and Path(V / m.group(1)).exists() or (m and Path(m.group(1)).exists()):
+                    rp = Path(m.group(1)) if Path(m.group(1)).exists() else V / m.group(1)
+                    try:
+                        d = json.loads(rp.read_text())
+                        sig = f"  [{d.get('kind')}: {d.get('signature')}]"
+                    except Exception:
+                        pass
+                print(f"{i}: check {p} rc={r.returncode} {time.time() - t0:.0f}s  {line[:200]}{sig}", flush=True)
         finally:
             sh("git -C /repo checkout -- .")
     assert sh("git -C /repo status --porcelain").stdout.strip() == "", "/repo left dirty"
